@@ -142,6 +142,10 @@ def make_strategy(script, log):
             self._log('go_short', {'sell': [list(map(float, r)) for r in self.sell]})
 
         def on_open_position(self, order):
+            if script.get('nested_market') and self._r('nm') % script['nested_market'] == 0:
+                self.liquidate()                   # a MARKET order submitted while the entry order is being executed
+                self._log('on_open_position')
+                return
             if script['exit_style'] == 'on_open':
                 sl, tp = self._exits('long' if self.is_long else 'short', self.position.entry_price)
                 if script.get('only') != 'tp':
@@ -256,15 +260,18 @@ class Tap:
             before = None if p is None else float(p.qty)
             e = store.exchanges.storage[self_.exchange]
             wb = float(e.assets[e.settlement_currency])
+            log.append({'k': 'exec_begin', 'id': oid(self_), 't': store.app.time, 'was': was, 'sym': self_.symbol, 'type': self_.type,
+                        'price': float(self_.price), 'qty': float(self_.qty)})
             o_exec(self_, silent)
             log.append({'k': 'execute', 'id': oid(self_), 't': store.app.time, 'was': was, 'now': self_.status, 'via': self_.submitted_via,
+                        'sym': self_.symbol, 'type': self_.type, 'price': float(self_.price), 'qty': float(self_.qty),
                         'pos_before': before, 'pos_after': None if p is None else float(p.qty),
                         'wallet_before': wb, 'wallet_after': float(e.assets[e.settlement_currency])})
 
         def cancel(self_, silent=False, source=''):
             was = self_.status
             o_cancel(self_, silent, source)
-            log.append({'k': 'cancel', 'id': oid(self_), 't': store.app.time, 'was': was, 'now': self_.status})
+            log.append({'k': 'cancel', 'id': oid(self_), 't': store.app.time, 'was': was, 'now': self_.status, 'sym': self_.symbol})
         Order.__init__, Order.execute, Order.cancel = init, execute, cancel
         # every liquidation check the simulators make
         import jesse.modes.backtest_mode as bm
@@ -285,11 +292,34 @@ class Tap:
             ev['qty_after'] = None if p is None else float(p.qty)
             log.append(ev)
         bm._check_for_liquidations = liqcheck
+        # every call of the per-minute / per-chunk matchers
+        self.orig_match = (bm._simulate_price_change_effect, bm._simulate_price_change_effect_multiple_candles)
+        m1, mN = self.orig_match
+
+        def match1(real_candle, exchange, symbol):
+            log.append({'k': 'match', 'sym': symbol, 't': store.app.time, 'candles': [[float(x) for x in real_candle]]})
+            try:
+                m1(real_candle, exchange, symbol)
+            except BaseException:
+                log.append({'k': 'match_abort', 'sym': symbol, 't': store.app.time})
+                raise
+            log.append({'k': 'match_end', 'sym': symbol, 't': store.app.time})
+
+        def matchN(short_candles, exchange, symbol):
+            log.append({'k': 'match', 'sym': symbol, 't': store.app.time, 'candles': [[float(x) for x in c] for c in short_candles]})
+            try:
+                mN(short_candles, exchange, symbol)
+            except BaseException:
+                log.append({'k': 'match_abort', 'sym': symbol, 't': store.app.time})
+                raise
+            log.append({'k': 'match_end', 'sym': symbol, 't': store.app.time})
+        bm._simulate_price_change_effect, bm._simulate_price_change_effect_multiple_candles = match1, matchN
         return self
 
     def __exit__(self, *a):
         self.Order.__init__, self.Order.execute, self.Order.cancel = self.orig
         self.bm._check_for_liquidations = self.orig_liq
+        self.bm._simulate_price_change_effect, self.bm._simulate_price_change_effect_multiple_candles = self.orig_match
 
 
 def run_session(candles_by_symbol, routes, data_routes=(), exchange_type='futures', fee=0.0, leverage=2, mode='cross', balance=10000.0,
